@@ -31,6 +31,8 @@ const (
 	opNewTemp = "newtemp"
 	opDiscard = "discard"
 	opDefine  = "define"
+	opLoad    = "loadfile" // vm.LoadAndRun(file): the file declares class <name> and function <name>
+	opEval    = "evaldef"  // a script on vm runs eval('class <name>…'); eval('function <name>…'); eval('interface <name>…')
 	opLookup  = "lookup"
 	opNew     = "new"
 	opCall    = "call"
@@ -65,7 +67,7 @@ func (o Op) String() string {
 		return "discard(" + vmLabel(o.VM) + ")"
 	case opDefine:
 		return fmt.Sprintf("define(%s,%s,%s)", vmLabel(o.VM), kindName[o.Kind], nameLabel(o.Name))
-	default:
+	default: // new, call, loadfile, evaldef
 		return fmt.Sprintf("%s(%s,%s)", o.K, vmLabel(o.VM), nameLabel(o.Name))
 	}
 }
@@ -90,7 +92,14 @@ type model struct {
 	status [maxSlots]int
 	// defs[vm][kind][name] = ids (index of the defining op in the history) of the definitions
 	// made through that VM, in order.
-	defs    [maxSlots][nKinds][nSym][]int
+	defs [maxSlots][nKinds][nSym][]int
+	// opt: definitions requested through eval(). Whether eval may define anything on that VM is
+	// not the statement's business (today a TempVM refuses eval): such a definition may or may
+	// not resolve on its own VM (and through temps if made on the base) — never anywhere else.
+	opt [maxSlots][nKinds][nSym][]int
+	// how many definitions came through LoadAndRun per VM (part of the merge key: the route leaves
+	// state behind — parser bindings, loaded-file marks — that no lookup shows directly)
+	viaFile [maxSlots]int
 	created int // temps created so far
 	used    int // symmetric names used so far (canonical naming)
 }
@@ -107,6 +116,7 @@ func (m *model) clone() *model {
 		for k := range m.defs[v] {
 			for n := range m.defs[v][k] {
 				c.defs[v][k][n] = append([]int(nil), m.defs[v][k][n]...)
+				c.opt[v][k][n] = append([]int(nil), m.opt[v][k][n]...)
 			}
 		}
 	}
@@ -128,9 +138,9 @@ func (m *model) live() []int {
 // the statement speaks about, so such ops are not part of the alphabet.
 func (m *model) baseTaken(kind, name int) bool {
 	if kind == kFunc {
-		return len(m.defs[0][kFunc][name]) > 0
+		return len(m.defs[0][kFunc][name])+len(m.opt[0][kFunc][name]) > 0
 	}
-	return len(m.defs[0][kClass][name]) > 0 || len(m.defs[0][kIface][name]) > 0
+	return len(m.defs[0][kClass][name])+len(m.defs[0][kIface][name])+len(m.opt[0][kClass][name])+len(m.opt[0][kIface][name]) > 0
 }
 
 // enabled lists the ops that may follow in state m (canonical naming enforced).
@@ -149,6 +159,22 @@ func (m *model) enabled(maxTemps int) []Op {
 				}
 				ops = append(ops, Op{K: opDefine, VM: v, Kind: k, Name: n})
 			}
+		}
+	}
+	for _, v := range live {
+		for n := 0; n < names; n++ {
+			if v == 0 && (m.baseTaken(kClass, n) || m.baseTaken(kFunc, n)) {
+				continue
+			}
+			ops = append(ops, Op{K: opLoad, VM: v, Name: n})
+		}
+	}
+	for _, v := range live {
+		for n := 0; n < names; n++ {
+			if v == 0 && (m.baseTaken(kClass, n) || m.baseTaken(kFunc, n)) {
+				continue
+			}
+			ops = append(ops, Op{K: opEval, VM: v, Name: n})
 		}
 	}
 	ops = append(ops, Op{K: opLookup})
@@ -186,7 +212,7 @@ func (m *model) valid(o Op, maxTemps int) bool {
 
 // apply advances the model; id is the index of the op in the history (= definition id).
 func (m *model) apply(o Op, id int) {
-	if o.K == opDefine || o.K == opNew || o.K == opCall {
+	if o.named() {
 		if o.Name != nameF && o.Name >= m.used {
 			m.used = o.Name + 1
 		}
@@ -198,8 +224,18 @@ func (m *model) apply(o Op, id int) {
 	case opDiscard:
 		m.status[o.VM] = stDead
 		m.defs[o.VM] = [nKinds][nSym][]int{}
+		m.opt[o.VM] = [nKinds][nSym][]int{}
+		m.viaFile[o.VM] = 0
 	case opDefine:
 		m.defs[o.VM][o.Kind][o.Name] = append(m.defs[o.VM][o.Kind][o.Name], id)
+	case opLoad:
+		m.defs[o.VM][kClass][o.Name] = append(m.defs[o.VM][kClass][o.Name], id)
+		m.defs[o.VM][kFunc][o.Name] = append(m.defs[o.VM][kFunc][o.Name], id)
+		m.viaFile[o.VM]++
+	case opEval:
+		for k := 0; k < nKinds; k++ {
+			m.opt[o.VM][k][o.Name] = append(m.opt[o.VM][k][o.Name], id)
+		}
 	}
 }
 
@@ -208,6 +244,18 @@ func (m *model) apply(o Op, id int) {
 // statement leaves the choice open (shadowing / redefinition inside one request); none => the
 // name must not resolve on v.
 func (m *model) allowed(v int, kinds []int, name int) []int {
+	r := m.must(v, kinds, name)
+	for _, k := range kinds {
+		r = append(r, m.opt[0][k][name]...)
+		if v != 0 {
+			r = append(r, m.opt[v][k][name]...)
+		}
+	}
+	return r
+}
+
+// must: the definitions of which one has to resolve on v (allowed minus the eval-requested ones).
+func (m *model) must(v int, kinds []int, name int) []int {
 	var r []int
 	for _, k := range kinds {
 		r = append(r, m.defs[0][k][name]...)
@@ -218,6 +266,18 @@ func (m *model) allowed(v int, kinds []int, name int) []int {
 	return r
 }
 
+// named: the op mentions one of the interchangeable names.
+func (o Op) named() bool {
+	switch o.K {
+	case opDefine, opLoad, opEval, opNew, opCall:
+		return true
+	}
+	return false
+}
+
+// defines: the op makes (or requests) definitions.
+func (o Op) defines() bool { return o.K == opDefine || o.K == opLoad || o.K == opEval }
+
 // owner describes a definition id for messages and canonical observation vectors.
 func (m *model) owner(id int) (v, k, n, ord int, ok bool) {
 	for v := 0; v < maxSlots; v++ {
@@ -226,6 +286,11 @@ func (m *model) owner(id int) (v, k, n, ord int, ok bool) {
 				for i, d := range m.defs[v][k][n] {
 					if d == id {
 						return v, k, n, i, true
+					}
+				}
+				for i, d := range m.opt[v][k][n] {
+					if d == id {
+						return v, k, n, 100 + i, true
 					}
 				}
 			}
@@ -239,10 +304,10 @@ func (m *model) canon() string {
 	var sb strings.Builder
 	fmt.Fprintf(&sb, "c%du%d|", m.created, m.used)
 	for v := 0; v < maxSlots; v++ {
-		fmt.Fprintf(&sb, "%d:", m.status[v])
+		fmt.Fprintf(&sb, "%d:f%d:", m.status[v], m.viaFile[v])
 		for k := 0; k < nKinds; k++ {
 			for n := 0; n < nSym; n++ {
-				fmt.Fprintf(&sb, "%d", len(m.defs[v][k][n]))
+				fmt.Fprintf(&sb, "%d.%d,", len(m.defs[v][k][n]), len(m.opt[v][k][n]))
 			}
 		}
 		sb.WriteByte('|')
@@ -261,7 +326,7 @@ func normalise(h []Op, maxTemps int) ([]Op, bool) {
 	next := 0
 	m := newModel()
 	for _, o := range h {
-		if o.K == opDefine || o.K == opNew || o.K == opCall {
+		if o.named() {
 			if o.Name != nameF {
 				if _, ok := ren[o.Name]; !ok {
 					ren[o.Name] = next
